@@ -552,7 +552,11 @@ def run_c17(ctx):
 
 KW_CONTEXTS = {
     "kw": ["{}", "{} x;", "a {} b", "{}=1;", "x={};"],
-    "mkw": ["%{}", "%{} ", "%{}(a)", "%{} a=1;", "a %{} b;", "%{}(a,1)", "\"%{}(a)\""],
+    "mkw": ["%{}", "%{} ", "%{}(a)", "%{} a=1;", "a %{} b;", "%{}(a,1)", "\"%{}(a)\"",
+            # the keyword's spelling as a name: of a macro definition, a parameter, a variable, an argument, a label target
+            "%macro {}; %mend;", "%macro m({}=1, x); %mend;", "%macro {} / des='x';", "%let {}=1;", "%local {} b;", "&{}", "&&{}.x",
+            "%m({}=1)", "%goto {};", "%{}: a;", "%if a %then %{};", "%do {}=1 %to 2;", "%sysfunc({}(1))", "%mend {};",
+            "%eval(1 %{} 2)", "%if &a = 1 %{} b;", "%do i = 1 %{} 10 %{} 2;"],
     "mnem": ["%eval(1 {} 2)", "%if a {} b %then;", "%eval({} 1)", "%sysevalf(1 {} 2)", "a {} b", "%eval(a{} 2)",
              "%eval(1 {}2)"],
     "suffix": ["'a'{}", "\"a\"{}", "\"&v\"{}", "'1f'{}", "'a'{};"],
